@@ -670,6 +670,102 @@ def check_corpus(ctx):
                                                      "narrow_vs_wide": res}
 
 
+def check_blended(ctx):
+    """multi-frame images (blending, reference frames, crops) whose samples overshoot the nominal
+    range, narrow buffers requested: the renderer converts them to float itself (blend, patches, ...),
+    and the float picture must be bit-identical to the one from forced wide buffers"""
+    import feedlib as fl
+    rng = ctx.rng
+    plans = []
+    for _ in range(24 if ctx.quick else 400):
+        img, frames = fl.gen_multiframe(rng, overshoot=rng.choice([0, 3, 12, 40]), max_bits=12)
+        img["buf16"] = True
+        img["anim"] = None
+        for f in frames:
+            f["dur"] = 0
+            if rng.random() < 0.3:
+                f["gab"] = True
+        plans.append(pl.plan_line(img, frames))
+    encs = run_lines_robust([MODEL_EXE, "enc"], plans, per_line_timeout=90)
+    rngs = run_lines_robust([MODEL_EXE, "c12"], ["range " + l for l in plans], per_line_timeout=120)
+    todo = []
+    for line, e, r in zip(plans, encs, rngs):
+        if not (e and e.startswith("ok")) or not (r and r.startswith("ok")):
+            ctx.count("blended:encoder-or-range-rejected")
+            continue
+        fits = all(t == "fits=1" for t in r.split() if t.startswith("fits="))
+        todo.append((line, e.split()[1], fits))
+    for release in (False, True):
+        dn = decode_all(ctx, [h for _, h, _ in todo], release, False)
+        dw = decode_all(ctx, [h for _, h, _ in todo], release, True)
+        for (line, hexs, fits), a, b in zip(todo, dn, dw):
+            ctx.case(("blended", line, release), nontrivial=True)
+            ctx.count("blended:" + ("inside" if fits else "outside") + "-hypothesis")
+            a, b = a or "crash", b or "crash"
+            rep = {"plan": line, "codestream_hex": hexs, "build": "release" if release else "checked",
+                   "how": "echo 'decode <hex> wide=0|1 threads=0' | harness/target/{debug,release}/img"}
+            if any(x.startswith(("panic", "crash")) or x == "hang" for x in (a, b)):
+                report(ctx, "decoder-panic-or-hang", {"narrow": a[:200], "wide": b[:200]}, rep, key="blended-panic:" + a.split()[0])
+            elif a != b and fits:
+                report(ctx, "narrow-render-differs-from-wide-inside-hypothesis", {"narrow": a[:160], "wide": b[:160]}, rep,
+                       key="c12:blended")
+
+
+def sample_ops(ctx):
+    """the scalar operations of the two sample types by value (hook H7 `sample_op`): narrow must equal
+    wide whenever operands and the wide result fit 16 bits (property oracle on the implementation
+    alone), and both must equal the Lean `sUnpack / sAdd / sMulAdd / gradClamped / sFromI32`"""
+    rng = ctx.rng
+    edge = [0, 1, -1, 2, -2, 255, 256, 4095, -4096, 16383, 16384, -16384, 30000, -30000, 32766, 32767, -32767, -32768]
+    def v16():
+        return rng.choice(edge) if rng.random() < 0.5 else rng.randint(-32768, 32767)
+    def v32():
+        r = rng.random()
+        if r < 0.4:
+            return v16()
+        if r < 0.7:
+            return rng.choice([32768, -32769, 65535, 65536, 2 ** 31 - 1, -2 ** 31, 2 ** 30, -2 ** 30, 10 ** 6])
+        return rng.randint(-2 ** 31, 2 ** 31 - 1)
+    lines = []
+    for _ in range(1500 if ctx.quick else 40000):
+        op = rng.choice(["unpack", "add", "muladd", "muladd", "grad", "grad", "from"])
+        if op == "unpack":
+            a, b, c = rng.choice([0, 1, 2, 3, 65534, 65535, 65536, 65537, 2 ** 32 - 1, 2 ** 32 - 2, rng.randrange(2 ** 32), rng.randrange(70000)]), 0, 0
+        elif op == "muladd":
+            a = v16()
+            b = rng.choice([1, 1, 2, 3, -1, 7, 255, 4096, 65537, v32()])
+            c = rng.choice([0, 0, 1, -3, 100, v16(), v32()])
+        elif op == "grad":
+            a, b, c = v16(), v16(), v16()
+        elif op == "add":
+            a, b, c = v16(), v16(), 0
+        else:
+            a, b, c = v32(), 0, 0
+        lines.append(f"sop {op} {a} {b} {c}")
+    for rel in (False, True):
+        impl = run_lines_robust([ctx.harness_bin("c12", release=rel)], lines, per_line_timeout=20)
+        model = run_lines_robust([MODEL_EXE, "c12"], lines, per_line_timeout=20) if not rel else model
+        for l, o, m in zip(lines, impl, model):
+            w = l.split()
+            ctx.case((l, rel), nontrivial=True)
+            ctx.count("sample-op:" + w[1])
+            mo = re.match(r"ok (-?\d+) (-?\d+)$", o or "")
+            rep = {"op": l, "impl": o, "model": m, "build": "release" if rel else "checked",
+                   "how": "echo '<op>' | harness/target/{debug,release}/c12 ; echo '<op>' | lean/.lake/build/bin/jxlmodel c12"}
+            if not mo:
+                ctx.violation("sample-operation-panicked", (o or "crash")[:200], rep, key="c12:sop-crash:" + w[1])
+                continue
+            n, wd = int(mo.group(1)), int(mo.group(2))
+            args = [int(x) for x in w[2:]]
+            fits = -32768 <= wd <= 32767 and (w[1] in ("unpack", "from") or all(-32768 <= x <= 32767 for x in args[:1] if w[1] == "muladd")
+                                               and (w[1] == "muladd" or all(-32768 <= x <= 32767 for x in args)))
+            if fits and n != wd:
+                ctx.violation("narrow-sample-operation-differs-from-wide", f"{l}: i16 {n} i32 {wd}", rep, key="c12:sop:" + w[1])
+            elif o != m:
+                ctx.failed_obligations.append(f"correspondence sample op vs Lean model differs: {l}: impl {o!r} model {m!r}")
+                break
+
+
 def run(ctx):
     ok = ctx.lean_build(MODULES)
     if ok:
@@ -696,6 +792,8 @@ def run(ctx):
     check_kernels(ctx, "checked", False)
     check_kernels(ctx, "release", True)
     tendency_boundary(ctx)
+    sample_ops(ctx)
+    check_blended(ctx)
     # (b)
     n_in, n_out = check_images(ctx, make_images(ctx))
     ctx.notes["images"] = {"inside_hypothesis": n_in, "outside_hypothesis": n_out}
